@@ -111,6 +111,26 @@ def gen(rng, tier):
         d = gen_device(rng, "led")
         d["close_us"] = off
         scenarios.append({"devices": [d], "tag": "corpus-D17"})
+    # corpus: the stale-release path - a note key held across a switch to a mapping in which that key is not a note, released there
+    # (its Note Off is found through the note tracker, outside the normal note/action dispatch), with the LED loop running
+    for _ in range(3 if tier == "quick" else 40):
+        d = gen_device(rng, "led")
+        cfg = c17.gen_cfg(rng, n_maps=2)
+        codes = [kk for kk in cfg["mappings"][0]["midi"]]
+        if len(cfg["mappings"]) >= 2 and codes and any(a["action"] == "mapping_up" for a in cfg["actions"]):
+            act = {a["action"]: a["code"] for a in cfg["actions"]}
+            vict = codes[0]
+            cfg["mappings"][1]["midi"] = [kk for kk in cfg["mappings"][1]["midi"] if kk["code"] != vict["code"]]
+            cfg["mapping"] = 0
+            cfg["exitseq"] = []
+            ev = []
+            for _r in range(12):
+                ev += [{"t": "k", "sub": vict["sub"], "code": vict["code"], "val": 1}, {"t": "k", "sub": "", "code": act["mapping_up"], "val": 1},
+                       {"t": "k", "sub": "", "code": act["mapping_up"], "val": 0}, {"t": "k", "sub": vict["sub"], "code": vict["code"], "val": 0}]
+                if "mapping_down" in act:
+                    ev += [{"t": "k", "sub": "", "code": act["mapping_down"], "val": 1}, {"t": "k", "sub": "", "code": act["mapping_down"], "val": 0}]
+            d.update({"cfg": cfg, "events": ev, "leds": c17.gen_layout(rng, cfg), "close_us": 15000})
+        scenarios.append({"devices": [d], "tag": "corpus-stale-release"})
     while len(scenarios) < n:
         k = rng.choice([1, 1, 2, 2, 3, 4, 6, 8])
         scenarios.append({"devices": [gen_device(rng) for _ in range(k)], "tag": "random"})
